@@ -130,6 +130,45 @@ CHECKS = {
             TB + "known finding upper_bound_exceeded; numba int64 arithmetic on int8 loads.",
             "Lean 4 proof (column scan state machine <=> declarative run/separation/pair-count specification) + correspondence + enumeration",
             "6/C07"),
+    "C03": ("proof",
+            "FULL statement proved (Pack.lowerBound_le_bins): for every instance the constructor accepts and every feasible packing with "
+            "90-degree rotation into k bins, lower_bound_bins <= k - the complete Dell'Amico/Martello/Vigo argument: the CUTSQ squares tile "
+            "each item, S1-S4 exclusivity and waste-strip geometry via the shared area lemma, optimality of the greedy S2-S3 matching "
+            "(exchange argument), the arithmetic and the orientation swap; plus lower_bound_bins >= ceil(area/bin area), 1 <= bound <= "
+            "n_items, InstanceSpace.min_bins = bound, final range checks never reject, no division by zero. Tie: correspondence on all 557 "
+            "shipped instances, exhaustive small scope, thresholds/random; witness packings (exact optimum, guillotine, bottom-left) are "
+            "validated by the Lean feasibility spec.",
+            TB + "float halves modelled as 2*l > W (exact below 2^53); list sort; the exact packer/generators are untrusted (witnesses are "
+            "validated).",
+            "Lean 4 proof (tiling by Euclid-style cutting, Finset cell counting, exchange argument) + correspondence + exact small optimum", "6/C03"),
+    "C10": ("proof",
+            "PARTIAL by nature: 9 Lean theorems over exact rationals for the logic of the simulation - retry state machine (at most 5 cycles; "
+            "result is exactly `steps` rows or the single failure row), row acceptance (first row = start, strictly increasing times <= the "
+            "original limit, every entry in range, control = controller(state, t)), time-limit monotonicity (after fix 63f4879), the "
+            "integration-state bookkeeping, figure-of-merit cursor fills exactly (no OOB) and J = documented formula >= 0 - for EVERY "
+            "integrator/controller behaviour satisfying the recorded runtime assumptions EnvOk. scipy's inner stepping, float evaluation and "
+            "integrator accuracy are recorded and tested, not proved.",
+            TB + "EnvOk (linspace grid shape, dense/controller output lengths, integrator stops, nextafter) is checked on every recorded run; "
+            "analytic-solution clause is a tolerance test.",
+            "Lean 4 proof of the control skeleton over an abstract integrator + scripted/recorded-integrator correspondence", "6/C10"),
+    "C11": ("proof",
+            "9 Lean theorems about the objective's object state machine for ALL histories of evaluate/initialize/set_model/set_raw/"
+            "get_differentials, both variants, all training-set sizes and stale buffer contents: refinement to a state-free documented "
+            "machine; evaluate returns the value of a fresh objective (in range or the failure value); model toggling does not interfere; "
+            "recorded data is a prefix-monotone log growing only in raw-mode evaluations; get_differentials idempotent and content-"
+            "preserving. run_ode/j_from_ode/diff_from_ode are abstract pure functions in the proof; their purity is TESTED by bit-exact "
+            "history correspondence against fresh objects.",
+            TB + "purity/determinism of RK45 and numba kernels is an assumption tested by the history correspondence, not derived.",
+            "Lean 4 proof (refinement of the object state machine) + bit-exact history correspondence", "6/C11"),
+    "C14": ("proof",
+            "11 Lean theorems: the array-level models of both decoders (C01, correspondence-checked) EQUAL an executable specification "
+            "written from the documentation (falls to the highest stop, slides to the rightmost stop incl. the left end of supporting items, "
+            "down-first loop, rotation rule, next-fit / first-fit over lists of bins) for every valid instance, signed permutation and prior "
+            "memory; the spec loop terminates unconditionally at the unique rest position; statelessness for single calls and for arbitrary "
+            "histories of mixed-encoder calls on one destination. Tie: fresh-vs-history decodes on shared encoder objects with dirty "
+            "destinations/scratch, overhang/touching/support-tie scenes.",
+            TB + "the specification is our formal reading of the docstrings.",
+            "Lean 4 proof (refinement model = documented rule; window = rows of a bin) + correspondence over decode histories", "6/C14"),
 }
 NOT_YET = "check not built yet (work in progress; see DESIGN.md section 6)"
 
